@@ -18,21 +18,28 @@ vars == <<cl, cs, cr, ph, name>>
 LangsOfKeys == { k[1] : k \in KeySet }
 ScriptsKeyedWith(x) == { k[2] : k \in { q \in KeySet : q[1] = x /\ q[2] # None } }
 RegionsKeyedWith(x) == { k[3] : k \in { q \in KeySet : q[1] = x /\ q[3] # None } }
-SFor(x) == {None, "Latn", "Arab", "Zzzz", "Qaaa"} \cup ScriptsKeyedWith(x)
-RFor(x) == {None, "US", "IN", "ZZ", "XK", "001", "999"} \cup RegionsKeyedWith(x)
+(* words the library's own sources mention (VERIF_DICT_LIKELY: by the production they fit, canonical case): a code the     *)
+(* implementation treats specially -- an alias table, a legacy or typographic-variant code -- is not in the CLDR data     *)
+DictLk == JsonDeserialize(IOEnv.VERIF_DICT_LIKELY)
+DictL == { DictLk.langs[n] : n \in 1..Len(DictLk.langs) }
+DictS == { DictLk.scripts[n] : n \in 1..Len(DictLk.scripts) }
+DictR == { DictLk.regions[n] : n \in 1..Len(DictLk.regions) }
+DictProbe(x) == x \in {UndL, "en", "ar", "zz"} \cup DictL
+SFor(x) == {None, "Latn", "Arab", "Zzzz", "Qaaa"} \cup ScriptsKeyedWith(x) \cup (IF DictProbe(x) THEN DictS ELSE {})
+RFor(x) == {None, "US", "IN", "ZZ", "XK", "001", "999"} \cup RegionsKeyedWith(x) \cup (IF DictProbe(x) THEN DictR ELSE {})
 
 InitKeys == \E k \in KeySet : cl = k[1] /\ cs = k[2] /\ cr = k[3] /\ ph = 1 /\ name = ""
-InitClosure == cl \in LangsOfKeys \cup {"zz", "qqq", "abcdefgh"} /\ cs = None /\ cr = None /\ ph = 0 /\ name = ""
+InitClosure == cl \in LangsOfKeys \cup {"zz", "qqq", "abcdefgh"} \cup DictL /\ cs = None /\ cr = None /\ ph = 0 /\ name = ""
 NextClosure == /\ ph = 0 /\ ph' = 1 /\ UNCHANGED <<cl, name>>
                /\ cs' \in SFor(cl) /\ cr' \in RFor(cl)
 
 (* direction: the CLDR locales themselves, then language x script probes    *)
 InitDir == \/ \E p \in LayoutLocales :
                  LET t == Triple(p[1]) IN cl = t[1] /\ cs = t[2] /\ cr = t[3] /\ ph = 1 /\ name = p[1]
-           \/ /\ cl \in D.rtlLangs \cup {"en", "zh", "mn", "und", "zz"} /\ ph = 0 /\ cs = None /\ cr = None /\ name = ""
+           \/ /\ cl \in D.rtlLangs \cup {"en", "zh", "mn", "und", "zz"} \cup DictL /\ ph = 0 /\ cs = None /\ cr = None /\ name = ""
 NextDir == /\ ph = 0 /\ ph' = 1 /\ UNCHANGED <<cl, name>>
-           /\ cs' \in ListedScripts \cup {None, "Zzzz", "Thaa", "Hebr"}
-           /\ cr' \in {None, "US", "PK", "AF", "CN", "ZZ"}
+           /\ cs' \in ListedScripts \cup {None, "Zzzz", "Thaa", "Hebr"} \cup DictS
+           /\ cr' \in {None, "US", "PK", "AF", "CN", "ZZ"} \cup (IF DictProbe(cl) THEN DictR ELSE {})
 
 Init == CASE Mode = "keys" -> InitKeys [] Mode = "closure" -> InitClosure [] Mode = "dir" -> InitDir
 Next == CASE Mode = "keys" -> FALSE /\ UNCHANGED vars
